@@ -238,7 +238,9 @@ let do_script h =
       | Some w -> { init_execdata with ed_weight_left = z_of_string w; ed_weight_init = true } in
     let v = setup_env c scr st (unhex (get h "succ" "")) ed None in
     if not v.i_operational then Printf.printf "R %s setupfail err=%s\n" id (string_of_z v.i_e.e_err)
-    else begin
+    else match witness_limits_violation c.c_sigver st with
+    | Some err -> Printf.printf "R %s setupfail err=%s\n" id (string_of_z err)
+    | None -> begin
       set_listing id h c v;
       dump_env id 0 1 "-" v;
       run_cmds id c v (get h "cmds" "")
@@ -397,7 +399,9 @@ let do_spend h =
            let v = setup_env c ss.ss_script ss.ss_stack ss.ss_successor ss.ss_ed ss.ss_tce in
            if not v.i_operational then Printf.printf "R %s setupfail err=%s\n" id (string_of_z v.i_e.e_err)
            else if pushonly_violation flags ss.ss_script ss.ss_successor then Printf.printf "R %s setupfail err=25\n" id
-           else begin
+           else match witness_limits_violation ss.ss_sigver ss.ss_stack with
+           | Some err -> Printf.printf "R %s setupfail err=%s\n" id (string_of_z err)
+           | None -> begin
              Printf.printf "R %s cfg sv=%s idx=%s vout=%s amount=%s pre=%d annex=%d\n" id (string_of_z ss.ss_sigver) (string_of_z idx) (string_of_z vout)
                (string_of_z ss.ss_amount) (if ss.ss_preamble then 1 else 0)
                (if ss.ss_ed.ed_annex_init then (if ss.ss_ed.ed_annex_present then 1 else 0) else -1);
